@@ -421,6 +421,7 @@ fn fold(t: &ChannelTrace, o: &ChannelOutcome, findings: Vec<Finding>, rec: &mut 
 }
 
 fn exec_and_fold(t: &ChannelTrace, scratch: &Scratch, rec: &mut RunRecord, seed: u64, index: u64, prop: &str) -> Vec<Finding> {
+    crate::crash::write_current_trace(&Trace::Channel(t.clone()));
     let o = run_channel(t, scratch);
     let f = judge_channel(t, &o);
     fold(t, &o, f, rec, seed, index, prop)
